@@ -370,6 +370,8 @@ H("streams_received_ack_of_native", ["C05"], "replay-only", "connection::streams
   [("reset", "bool")], 4, [], ["StreamsState::received_ack_of"], "native replay body of E2 query e2_received_ack_of")
 H("streams_chunks_next_eos_native", ["C01", "C11"], "replay-only", "connection::streams::chunks_next_eos_native",
   [("gap", "bool"), ("ordered", "bool")], 4, [], ["Chunks::next", "RecvStream::read", "StreamsState::received"], "native replay body of E2 query e2_chunks_next_eos")
+H("conn_idle_close_timers_native", ["C08"], "replay-only", "connection::idle_close_timers_native",
+  [("state", "u8"), ("has_idle", "bool")], 4, [], ["Connection::reset_idle_timeout", "Connection::set_close_timer"], "native replay body of E2 queries e2_reset_idle_timeout / e2_set_close_timer")
 H("conn_peer_params_cid_auth_native", ["C14", "C04"], "replay-only", "connection::peer_params_cid_auth_native",
   [("server", "bool"), ("which", "u8")], 4, [], ["Connection::handle_peer_params"], "native replay body of E2 query e2_peer_params_cid_auth")
 
